@@ -227,6 +227,9 @@ Definition verdict_C13_any (c : case + nat) : nat :=
   match c with inl k => verdict_C13 k | inr 1 => 0 | inr _ => 2 end.
 Definition wfc (k : case) : case + nat := inl k.
 Definition asserted (n : nat) : case + nat := inr n.
+(* a scenario compared with the model, or a direct assertion made by a probe of the driver (1 = it held) *)
+Definition any_of (v : case -> nat) (c : case + nat) : nat :=
+  match c with inl k => v k | inr 1 => 0 | inr _ => 2 end.
 (* C05: states, callback phases and arguments, results and exceptions of the (a)sync twin *)
 Definition fl_C05 := {| f_val := true; f_exn := true; f_field := true; f_allowed := true;
                         f_ids := true; f_ctx := true; f_nested := true; f_depth := false |}.
